@@ -8,11 +8,14 @@ RULE = ("op `pkt <frame> <script>` with assignments through the real SetProp cod
         "later read / serialisation to agree with those bytes; an out-of-range integer may either be refused (then nothing changes) or stored modulo 2^width — both "
         "outcomes are admissible alternatives; a value of the wrong kind, a malformed address and an assignment to `version` must be refused; "
         "distinct = distinct op line; non-trivial = at least one assignment was accepted")
+NOTES = ["the model is the code after /repo commits aefd4e7 (TCP data offset / flags / urgent pointer written back, 4- and 8-bit setters) and 3aaa561 (20-bit flow label): "
+         "set_cast_invalid, tcp_reparse, ipv6_reparse hold without exclusions",
+         "the witness lines of the repaired findings in known_findings.json are run as regression inputs on every check"]
 ASSUMPTIONS = ["after an assignment to a field that decides where or what the inner layers are (type / protocol / next header / IHL / data offset / length fields) "
                "nothing is demanded of the layers below it any more",
                "assigning to a layer-valued property, to payload, or through a name that disagrees with the type field is outside the statement: the rest of that "
                "script is unconstrained",
-               "TCP flags: either only the eight control bits are written or the four reserved bits are cleared with them"]
+               "TCP flags: either only the eight control bits are written (what the code does: the reserved bits are kept) or the four reserved bits are cleared with them"]
 HARNESS_TIMEOUT = 600
 DRIVER_TIMEOUT = 900
 
